@@ -12,6 +12,10 @@ a quotient by a square root) of these numbers, so every equality below carries o
 outputs; `[−num, dsq]` ↦ `−num/√dsq` carries the sign change.  Those tails are outside the model
 (the tie applies them in floating point and compares with the real classes).
 
+Concrete witnesses and non-vacuity examples are closed by `decide +kernel`: the `Decidable`
+instance is evaluated by the Lean kernel itself (core `Rat` arithmetic does not unfold under plain
+`decide`); no native code and no axiom beyond the allowed three is involved.
+
 The statements quantify over all rational coordinates, velocities, boxes of any length, Python
 indices (negative ones wrap, out-of-range ones give `IndexError` on both sides of each equation),
 image multipliers and rotation matrices.
